@@ -330,7 +330,7 @@ def type_id(v, cls_of):
            z3.If(V.is_float(v), -4, z3.If(V.is_str(v), -5, z3.If(V.is_bytes(v), -6,
            z3.If(V.is_list(v), -7, z3.If(V.is_tuple(v), -8,
            z3.If(V.is_set(v), z3.If(Val.frozen(v), -10, -9),
-           z3.If(V.is_dict(v), -11, z3.If(V.is_obj(v), cls_of(Val.ref(v)),
+           z3.If(V.is_dict(v), -11, z3.If(V.is_obj(v), z3.If(cls_of(Val.ref(v)) >= 1, cls_of(Val.ref(v)), 999999),
            z3.If(V.is_type(v), -12, -13))))))))))))
 
 
